@@ -5,7 +5,7 @@
    quiescent states plus the termination measure is the liveness statement
    "every maximal run of internal steps is finite and ends in such a state". *)
 From Coq Require Import List Bool Arith.
-From Martian.C10 Require Import Gen_H2Const Model Proofs_Measure Proofs_Inv Proofs_Live Proofs_Refute.
+From Martian.C10 Require Import Gen_H2Const Model Proofs_Measure Proofs_Inv Proofs_Tac Proofs_Live Proofs_Partial Proofs_Refute.
 Import ListNotations.
 
 (* Internal steps terminate, whatever the configuration and whatever the state:
@@ -43,6 +43,7 @@ Theorem C10_returns : forall s,
   reachable cfg_fixed s ->
   (forall l, internal l = true -> step cfg_fixed s l = None) ->
   trig s = true ->
+  blocks s Cl = false -> blocks s Sv = false ->   (* no Write is held up by a peer that stopped reading *)
   main s = MReturned.
 Proof.
   intros s Hr Hq Ht.
@@ -63,6 +64,7 @@ Theorem C10_no_blocked_goroutine : forall s,
   reachable cfg_fixed s ->
   (forall l, internal l = true -> step cfg_fixed s l = None) ->
   trig s = true ->
+  blocks s Cl = false -> blocks s Sv = false ->
   goroutines s = 0.
 Proof.
   intros s Hr Hq Ht.
@@ -95,7 +97,7 @@ Proof. exact (bad_final_elim _ _ _ refute_returns_orig). Qed.
 Print Assumptions C10_returns_refuted.
 
 Theorem C10_returns_refuted_without_done_signal : exists s,
-  reachable (mkCfg true false true) s /\ quiescentb (mkCfg true false true) s = true
+  reachable (mkCfg true false true true) s /\ quiescentb (mkCfg true false true true) s = true
   /\ trig s = true /\ not_returned s = true.
 Proof. exact (bad_final_elim _ _ _ refute_returns_no_done). Qed.
 
@@ -106,7 +108,7 @@ Proof. exact (bad_final_elim _ _ _ refute_upstream_orig). Qed.
 Print Assumptions C10_upstream_closed_on_return_refuted.
 
 Theorem C10_upstream_closed_refuted_without_close : exists s,
-  reachable (mkCfg false true true) s /\ quiescentb (mkCfg false true true) s = true
+  reachable (mkCfg false true true true) s /\ quiescentb (mkCfg false true true true) s = true
   /\ trig s = true /\ (returned s && negb (sc_closed s)) = true.
 Proof. exact (bad_final_elim _ _ _ refute_upstream_no_close). Qed.
 
@@ -123,9 +125,19 @@ Proof. exact (bad_final_elim _ _ _ refute_emit_orig). Qed.
 Print Assumptions C10_emit_into_dead_channel_refuted.
 
 Theorem C10_emit_refuted_without_abort : exists s,
-  reachable (mkCfg true true false) s /\ quiescentb (mkCfg true true false) s = true
+  reachable (mkCfg true true false true) s /\ quiescentb (mkCfg true true false true) s = true
   /\ trig s = true /\ stuck_in_emit s = true.
 Proof. exact (bad_final_elim _ _ _ refute_emit_no_abort). Qed.
+
+(* writerErr made unbuffered (the repairs otherwise in place): a write toward a peer that has
+   stopped reading is blocked in the writer goroutine, the session ends by another route (that
+   peer's FIN), the reader waits in `readerDone <-`; when the blocked write then fails the writer
+   waits in `writerErr <-`: neither moves again although no peer holds a write up any more *)
+Theorem C10_returns_refuted_with_unbuffered_writerErr : exists s,
+  reachable cfg_unbuffered_werr s /\ quiescentb cfg_unbuffered_werr s = true
+  /\ trig s = true /\ handoff_deadlock s = true.
+Proof. exact (bad_final_elim _ _ _ refute_unbuffered_werr). Qed.
+Print Assumptions C10_returns_refuted_with_unbuffered_writerErr.
 
 (* what does hold of the relay as it was: proxy shutdown makes Proxy return
    unless a reader is wedged on the output channel of a direction whose writer
@@ -134,6 +146,7 @@ Theorem C10_returns_partial : forall s,
   reachable cfg_orig s ->
   (forall l, internal l = true -> step cfg_orig s l = None) ->
   closing s = true -> no_stuck_emit s ->
+  is_stalled (cli s) = false -> is_stalled (srv s) = false ->
   main s = MReturned.
 Proof.
   intros s Hr Hq. exact (returns_partial_orig s Hr (proj2 (quiescentb_spec _ _) Hq)).
@@ -149,6 +162,15 @@ Example C10_example_full_channel :
   match run cfg_fixed init (w_full_then_end ++ [IAbort Sv; IUnlock Sv false; ISelDone Sv; IHandshake Sv; IStop Sv;
                                                IJoin; ICallerClose; IReadEnd Sv]) with
   | Some s => quiescentb cfg_fixed s && trig s && c10_ok (obs_of s)
+  | None => false
+  end = true.
+Proof. vm_compute. reflexivity. Qed.
+
+(* the repaired relay (buffered writerErr) unwinds from the late write failure; the hypotheses
+   blocks = false of C10_returns hold in its final state *)
+Example C10_example_late_write_failure :
+  match run cfg_fixed init (w_blocked_write_fails_late ++ [IHandshake Cl; IStop Cl; IJoin; ICallerClose; IReadEnd Cl]) with
+  | Some s => quiescentb cfg_fixed s && trig s && negb (blocks s Cl) && negb (blocks s Sv) && c10_ok (obs_of s)
   | None => false
   end = true.
 Proof. vm_compute. reflexivity. Qed.
